@@ -155,7 +155,7 @@ func stepJob(mode, cmd string, n int, arg, prefix string, pure bool, inv bool) *
 }
 
 var stepAssumptions = []string{
-	"pre-state = arbitrary buffer of n Unicode scalar values, cursor and mark anywhere in it, installed through Line.Set/Cursor.Set at the first input wait of a real Readline call; other editor components have their post-init values",
+	"pre-state = arbitrary buffer of n Unicode scalar values, cursor and mark anywhere in it, installed through Line.Set/Cursor.Set at the first input wait of a real Readline call; other editor components have their post-init values (jobs with hist=1: the history holds a line that extends the buffer, a line equal to it and an unrelated line)",
 	"the terminal answers every cursor-position query with ESC[1;1R",
 	"painting functions of the display engine are no-ops (their output is not observed): " + strings.Join(paintStubs, ", "),
 	"SIGWINCH goroutine is created but never scheduled",
@@ -196,6 +196,23 @@ func init() {
 						jobs = append(jobs, stepJob("vi-command", cmd, n, arg, "", true, true))
 					}
 				}
+			}
+			// the same commands with a history that holds a line extending the buffer (the
+			// history is a hidden component that is empty in the jobs above)
+			hn := 2
+			withHist := func(j *Job) *Job {
+				j.Params["hist"] = "1"
+				j.Name = strings.Replace(j.Name, "{", "{hist=1,", 1)
+				return j
+			}
+			for _, cmd := range pureEmacs {
+				jobs = append(jobs, withHist(stepJob("emacs", cmd, hn, "", "", true, true)))
+			}
+			for _, cmd := range pureVi {
+				jobs = append(jobs, withHist(stepJob("vi-command", cmd, hn, "", "", true, true)))
+			}
+			for _, cmd := range []string{"vi-forward-word", "vi-end-word", "vi-end-of-line"} {
+				jobs = append(jobs, withHist(stepJob("vi-command", cmd, hn, "", "y", true, true)))
 			}
 			return jobs
 		},
